@@ -124,6 +124,8 @@ func (pConn *PFCPConn) startHeartBeatMonitor() {
 // NewPFCPConn creates a connected UDP socket to the rAddr PFCP peer specified.
 // buf is the first message received from the peer, nil if we are initiating.
 func (node *PFCPNode) NewPFCPConn(lAddr, rAddr string, buf []byte) *PFCPConn {
+	node.pConnsCreated.Add(1)
+
 	conn, err := reuse.Dial("udp", lAddr, rAddr)
 	if err != nil {
 		logger.PfcpLog.Errorln("dial socket failed", err)
